@@ -2,7 +2,7 @@
    Statement file: every theorem is closed by [exact] of a lemma proved in Cal/CalendarProofs.v
    and followed by Print Assumptions.  The theorems hold for every number type with arbitrary
    operations (in particular IEEE binary64), every calendar expression, every date. *)
-From PJ Require Import Base.Prelude Cal.Calendar Cal.CalendarProofs.
+From PJ Require Import Base.Prelude Cal.Calendar Cal.CalendarProofs gen.SrcCal Cal.SrcCalEquiv.
 
 Section C17.
 Context {num : Type}.
@@ -294,6 +294,56 @@ Proof.
     split; [intros [H _]; vm_compute in H; discriminate|]. vm_compute. split; reflexivity.
 Qed.
 
+(* ---- the tie to the source text -------------------------------------------------------------------
+   gen/SrcCal.v is produced on every run by harness/srcgen from the *current source text* of
+   src/pjplan/calendar.py and src/pjplan/resource.py.  For all inputs the translated method bodies are the
+   model about which the theorems above are stated (a calendar object is seen by the translated code through
+   its get_available_units, `as_fn`). *)
+Section C17_src.
+Context {num : Type}.
+Variables (nadd nsub nmul ndiv : num -> num -> num) (nzero : num).
+Variable nltb : num -> num -> bool.
+Variable nis0 : num -> bool.
+Notation eval := (eval nadd nsub nmul ndiv nzero nltb nis0).
+Notation as_fn := (as_fn nadd nsub nmul ndiv nzero nltb nis0).
+
+Theorem C17_src_sum : forall cs t, src_sum_units nadd (map as_fn cs) t = eval (Sum cs) t.
+Proof. exact (src_sum_units_eq nadd nsub nmul ndiv nzero nltb nis0). Qed.
+
+Theorem C17_src_sub : forall cs t, src_sub_units nsub nzero nltb (map as_fn cs) t = eval (Sub cs) t.
+Proof. exact (src_sub_units_eq nadd nsub nmul ndiv nzero nltb nis0). Qed.
+
+Theorem C17_src_mul : forall cs t, src_mul_units nmul (map as_fn cs) t = eval (Mul cs) t.
+Proof. exact (src_mul_units_eq nadd nsub nmul ndiv nzero nltb nis0). Qed.
+
+Theorem C17_src_div : forall cs t, src_div_units ndiv nis0 (map as_fn cs) t = eval (Div cs) t.
+Proof. exact (src_div_units_eq nadd nsub nmul ndiv nzero nltb nis0). Qed.
+
+Theorem C17_src_or : forall cs t, src_disj_units nzero nltb (map as_fn cs) t = eval (Disj cs) t.
+Proof. exact (src_disj_units_eq nadd nsub nmul ndiv nzero nltb nis0). Qed.
+
+Theorem C17_src_fixed : forall u st en t, src_fixed_units nzero u st en t = eval (Fixed u st en) t.
+Proof. exact (src_fixed_units_eq nadd nsub nmul ndiv nzero nltb nis0). Qed.
+
+Theorem C17_src_weekly : forall st en h t, src_weekly_units nzero st en h t = eval (Weekly st en h) t.
+Proof. exact (src_weekly_units_eq nadd nsub nmul ndiv nzero nltb nis0). Qed.
+
+(* the dict of a DirectCalendar is keyed by midnights (DAY * day number) *)
+Theorem C17_src_dated : forall m t, src_direct_units (by_midnight m) t = eval (Dated m) t.
+Proof. exact (src_direct_units_eq nadd nsub nmul ndiv nzero nltb nis0). Qed.
+
+Theorem C17_src_resource_units : forall c t,
+  src_resource_units nzero (as_fn c) t = units nadd nsub nmul ndiv nzero nltb nis0 c t.
+Proof. exact (src_resource_units_eq nadd nsub nmul ndiv nzero nltb nis0). Qed.
+
+(* the search loop of IResource.get_nearest_availability_date, for any get_available_units [u] and any horizon:
+   `while step < max_days` never runs out of the fuel S (Z.to_nat max_days) handed to the translated loop *)
+Theorem C17_src_search : forall (u : Z -> res num) t dir max_days,
+  src_nearest nzero nltb u t dir max_days = search nzero nltb u dir (Z.to_nat max_days) t.
+Proof. exact (src_nearest_eq nzero nltb). Qed.
+
+End C17_src.
+
 Print Assumptions C17_sum.
 Print Assumptions C17_mul.
 Print Assumptions C17_sub.
@@ -339,3 +389,13 @@ Print Assumptions C17_cap_any_time.
 Print Assumptions C17_cap_exact.
 Print Assumptions C17_cap_example.
 Print Assumptions C17_bound_inside_day_breaks_day_function.
+Print Assumptions C17_src_sum.
+Print Assumptions C17_src_sub.
+Print Assumptions C17_src_mul.
+Print Assumptions C17_src_div.
+Print Assumptions C17_src_or.
+Print Assumptions C17_src_fixed.
+Print Assumptions C17_src_weekly.
+Print Assumptions C17_src_dated.
+Print Assumptions C17_src_resource_units.
+Print Assumptions C17_src_search.
